@@ -11,15 +11,23 @@
 (***************************************************************************)
 EXTENDS Routing, Json
 CONSTANTS Depth, MaxIdle,
+          HoldAck,    \* TRUE: the harness can hold a source stream's receiver inside its Send of an acknowledgement (fake stream
+                      \* gate): the ack has been computed and handed to the stream, further acks for that source queue up in its
+                      \* ack channel behind it while senders and other receivers go on - "holdack" / "releaseack" boundary steps
           HoldClose   \* TRUE: the harness holds a broken sender between close(sendMsgChan) and its deregistration
                       \* (hook sender.run.afterClose), so SenderGone becomes a boundary step
 VARIABLES hist, idles,
+          ackHeld,   \* [Src -> "no" | "armed" (the next emitted ack blocks) | "blocked"]
           tags    \* rare branches of the design this behaviour has exercised (used to prioritise replay)
-svars == <<vars, hist, idles, tags>>
+svars == <<vars, hist, idles, ackHeld, tags>>
 Cmd(r) == hist' = Append(hist, r)
 More == Len(hist) < Depth + 1
 Header == [c |-> "config", route |-> route]
-SimInit == Init /\ hist = <<Header>> /\ idles = 0 /\ tags = {}
+SimInit == Init /\ hist = <<Header>> /\ idles = 0 /\ tags = {} /\ ackHeld = [s \in Src |-> "no"]
+HoldStep ==
+  \/ \E s \in Src : HoldAck /\ ackHeld[s] = "no" /\ srcUp[s] = "up" /\ (\A u \in Src : ackHeld[u] = "no")
+                    /\ ackHeld' = [ackHeld EXCEPT ![s] = "armed"] /\ Cmd([c |-> "holdack", s |-> s]) /\ UNCHANGED vars
+  \/ \E s \in Src : ackHeld[s] = "blocked" /\ ackHeld' = [ackHeld EXCEPT ![s] = "no"] /\ Cmd([c |-> "releaseack", s |-> s]) /\ UNCHANGED vars
 EnvStep ==
   \/ \E s \in Src : \E k \in 1..MaxBatch : RecvTasks(s, k) /\ Cmd([c |-> "tasks", s |-> s, k |-> k])
   \/ \E s \in Src : RecvWm(s) /\ Cmd([c |-> "wm", s |-> s])
@@ -36,14 +44,24 @@ Idle == /\ idles < MaxIdle /\ (\E t \in Tgt : Live(t) /\ lastSent[t] > 0) /\ idl
         /\ Cmd([c |-> "idle"]) /\ UNCHANGED vars
 Pad == ~ENABLED (Env \/ Fault) /\ Cmd([c |-> "settle"]) /\ UNCHANGED <<vars, idles>>
 \* internal steps the proxy takes by itself (with HoldClose the deregistration of a closed sender is not one of them)
-Auto == IF HoldClose
-        THEN \/ \E s \in Src, t \in Tgt : Deliver(s, t) \/ Bcast(s, t) \/ ForwardAck(t, s) \/ ReplayWm(t, s)
-             \/ \E t \in Tgt : SenderDequeue(t) \/ SenderRecvAck(t) \/ FinishAck(t) \/ SenderClose(t)
-             \/ \E s \in Src : Aggregate(s) \/ SrcStop(s)
-        ELSE Internal
+\* Aggregate of a source whose receiver is blocked in Send is not available; the Aggregate that emits while the hold is armed
+\* is the one that blocks
 AggMinOf(s) == LET m == Head(ackChan[s])
                    abt == [ackByTarget[s] EXCEPT ![m.tgt] = m.a]
                IN Min({abt[t] : t \in {u \in Tgt : abt[u] # Absent}})
+AggOK(s) == ackHeld[s] # "blocked"
+AggStep(s) == /\ AggOK(s) /\ Aggregate(s)
+              \* (the branch of Aggregate that calls Send: the aggregated minimum is not below what was sent before)
+              /\ ackHeld' = IF ackHeld[s] = "armed" /\ AggMinOf(s) >= lastSentMin[s]
+                             THEN [ackHeld EXCEPT ![s] = "blocked"] ELSE ackHeld
+AutoRest == IF HoldClose
+            THEN \/ \E s \in Src, t \in Tgt : Deliver(s, t) \/ Bcast(s, t) \/ ForwardAck(t, s) \/ ReplayWm(t, s)
+                 \/ \E t \in Tgt : SenderDequeue(t) \/ SenderRecvAck(t) \/ FinishAck(t) \/ SenderClose(t)
+                 \/ \E s \in Src : SrcStop(s)
+            ELSE \/ \E s \in Src, t \in Tgt : Deliver(s, t) \/ Bcast(s, t) \/ ForwardAck(t, s) \/ ReplayWm(t, s)
+                 \/ \E t \in Tgt : SenderDequeue(t) \/ SenderRecvAck(t) \/ FinishAck(t) \/ SenderClose(t) \/ SenderGone(t)
+                 \/ \E s \in Src : SrcStop(s)
+Auto == (AutoRest /\ UNCHANGED ackHeld) \/ \E s \in Src : AggStep(s)
 Aggregated(s) == ackChan[s] # <<>> /\ srcUp[s] = "up" /\ Len(ackChan'[s]) < Len(ackChan[s])
 NewTags ==
   (IF \E s \in Src : Aggregated(s) /\ AggMinOf(s) < lastSentMin[s] THEN {"lowmin"} ELSE {})
@@ -60,7 +78,8 @@ NewTags ==
 SimNext ==
   /\ More
   /\ \/ Auto /\ UNCHANGED <<hist, idles>>
-     \/ ~ENABLED Auto /\ ((EnvStep /\ UNCHANGED idles) \/ Idle \/ Pad)
+     \/ ~ENABLED Auto /\ ((EnvStep /\ UNCHANGED <<idles, ackHeld>>) \/ (HoldStep /\ UNCHANGED idles) \/ (Idle /\ UNCHANGED ackHeld)
+                         \/ (Pad /\ UNCHANGED ackHeld))
   /\ tags' = tags \cup NewTags
   /\ (Len(hist') = Depth + 1 => PrintT(ToJson(Append(hist', [c |-> "tags", tags |-> tags']))))
 SimSpec == SimInit /\ [][SimNext]_svars
